@@ -59,6 +59,7 @@ SPEC = dict(
                'as long as exactness is guaranteed, 1..500), orders at most 8; coefficients/inputs are sampled, not enumerated; the float (A_SIZE_REAL=4) and long double (16) builds are run through the compact '
                'companion h_filter_w.c only (init/zero/set on garbage-filled exact-size delay lines, one-step binary128 oracle, RC filters; counters w-*); '
                'the C++ operator() wrappers are not executed',
-    technique='exact-arithmetic reference recurrence (bitwise) + binary128 one-step oracle + LTI identities + canaries under ASan+UBSan',
+    technique='exact-arithmetic reference recurrence (bitwise) + binary128 one-step oracle + LTI identities + canaries under ASan+UBSan'
+              '; float / long double companion harness; C++ member vs C function twin execution on one object',
     workers={'quick': 12, 'thorough': 18},
 )
